@@ -102,18 +102,17 @@ Proof. induction l as [|x r IH]; cbn; [lia|]. destruct (f x); cbn; lia. Qed.
 
 Definition notdue (now : Z) (n : node) : bool := negb (is_due now n).
 
-Lemma atrigger_spec now maxId fuel : forall arr outside r o,
+Lemma atrigger_spec now fuel : forall arr outside r o,
   harr_ok arr -> Forall (fun x => hidx x = -1) outside -> NoDup (map nid (map hn arr)) ->
-  Forall (fun n => nid n <= maxId) (map hn arr) ->
   (length (filter (is_due now) (map hn arr)) < fuel)%nat ->
-  let res := atrigger fuel now maxId arr outside r o in
+  let res := atrigger fuel now arr outside r o in
   let abs := fold_left (hexpire_one now) (hsort (filter (is_due now) (map hn arr)))
                        (filter (notdue now) (map hn arr), r, o) in
   snd (fst res) = snd (fst abs) /\ snd res = snd abs /\
   Permutation (map hn (fst (fst (fst res)))) (fst (fst abs)) /\
   harr_ok (fst (fst (fst res))) /\ Forall (fun x => hidx x = -1) (snd (fst (fst res))).
 Proof.
-  induction fuel as [|f IH]; intros arr outside r o Hok Hout Hnd Hle Hfuel; [lia|].
+  induction fuel as [|f IH]; intros arr outside r o Hok Hout Hnd Hfuel; [lia|].
   cbn zeta. cbn [atrigger].
   destruct arr as [|top rest] eqn:Earr.
   { cbn. split; [reflexivity|split; [reflexivity|split; [constructor|split; [exact Hok|exact Hout]]]]. }
@@ -128,9 +127,6 @@ Proof.
     rewrite (filter_all (notdue now)).
     - cbn [fst snd]. split; [reflexivity|split; [reflexivity|split; [reflexivity|split; [exact Hok|exact Hout]]]].
     - intros y Hy. specialize (Hmin y Hy). apply nle_spec in Hmin. unfold notdue, is_due. lia. }
-  assert (Hid : (maxId <? nid (hn top)) = false).
-  { rewrite Forall_forall in Hle. specialize (Hle (hn top)). rewrite EN in Hle. specialize (Hle (or_introl eq_refl)). lia. }
-  rewrite Hid.
   (* the due list begins with the root *)
   assert (Htd : is_due now (hn top) = true) by (unfold is_due; lia).
   set (F := filter (is_due now) (map hn rest)).
@@ -146,7 +142,6 @@ Proof.
   assert (HndF : NoDup (map nid (hsort F))).
   { eapply Permutation_NoDup; [apply Permutation_map, Permutation_sym, hsort_perm|].
     unfold F. apply NoDup_map_filter. exact Hndrest. }
-  assert (Hlerest : Forall (fun n => nid n <= maxId) (map hn rest)) by (rewrite EN in Hle; inversion Hle; assumption).
   assert (Hne : arr <> []) by (rewrite Earr; discriminate).
   assert (Hlen : (length F < f)%nat) by (rewrite EF in Hfuel; cbn [length] in Hfuel; lia).
   assert (Htop0 : hidx top = 0).
@@ -154,22 +149,21 @@ Proof.
   (* continue with an array whose nodes are a permutation of N2 *)
   assert (Hcont : forall arr2 outside2 r2 o2 N2 X,
              harr_ok arr2 -> Forall (fun x => hidx x = -1) outside2 ->
-             Permutation (map hn arr2) N2 -> NoDup (map nid N2) -> Forall (fun n => nid n <= maxId) N2 ->
+             Permutation (map hn arr2) N2 -> NoDup (map nid N2) ->
              filter (is_due now) N2 = F \/ Permutation (filter (is_due now) N2) F ->
              Permutation (filter (notdue now) N2) X ->
-             let res := atrigger f now maxId arr2 outside2 r2 o2 in
+             let res := atrigger f now arr2 outside2 r2 o2 in
              let abs := fold_left (hexpire_one now) (hsort F) (X, r2, o2) in
              snd (fst res) = snd (fst abs) /\ snd res = snd abs /\
              Permutation (map hn (fst (fst (fst res)))) (fst (fst abs)) /\
              harr_ok (fst (fst (fst res))) /\ Forall (fun x => hidx x = -1) (snd (fst (fst res)))).
-  { intros arr2 outside2 r2 o2 N2 X Hok2 Hout2 Hp2 Hnd2 Hle2 HF2 HX2.
+  { intros arr2 outside2 r2 o2 N2 X Hok2 Hout2 Hp2 Hnd2 HF2 HX2.
     assert (HpF : Permutation (filter (is_due now) (map hn arr2)) F).
     { etransitivity; [apply perm_filter; exact Hp2|]. destruct HF2 as [->|H]; [reflexivity|exact H]. }
     assert (Hnd2' : NoDup (map nid (map hn arr2))).
     { eapply Permutation_NoDup; [apply Permutation_map, Permutation_sym; exact Hp2|exact Hnd2]. }
     specialize (IH arr2 outside2 r2 o2 Hok2 Hout2 Hnd2').
     destruct IH as [I1 [I2 [I3 [I4 I5]]]].
-    - eapply Permutation_Forall; [apply Permutation_sym; exact Hp2|exact Hle2].
     - rewrite (Permutation_length HpF). exact Hlen.
     - cbn zeta in *.
       rewrite (hsort_perm_eq _ F HpF) in I1, I2, I3 by (apply NoDup_map_filter; exact Hnd2').
@@ -190,8 +184,6 @@ Proof.
       { unfold is_due, rearm, periodic in *. cbn. lia. }
       apply (Hcont _ _ _ _ (rearm now (hn top) :: map hn rest)); try assumption.
       * cbn [map]. change (nid (rearm now (hn top))) with (nid (hn top)). rewrite EN in Hnd. exact Hnd.
-      * constructor; [|exact Hlerest]. change (nid (rearm now (hn top))) with (nid (hn top)).
-        rewrite EN in Hle. inversion Hle; assumption.
       * left. cbn [filter]. destruct (is_due now (rearm now (hn top))); [contradiction Hnd'; reflexivity|reflexivity].
       * cbn [filter]. unfold notdue at 1. destruct (is_due now (rearm now (hn top))); [contradiction Hnd'; reflexivity|].
         cbn [negb]. apply Permutation_cons_append.
@@ -233,9 +225,9 @@ Definition out_eqp (a b : out) : Prop :=
 
 Definition good (m : st) : Prop := minv m /\ exists z, rel m z.
 
-Lemma good_step m o : good m -> good (fst (step m o)).
+Lemma good_step m o : good m -> snext m + 1 < 2 ^ 63 -> good (fst (step m o)).
 Proof.
-  intros [Hm [z Hr]]. destruct (step_sim m z o Hm Hr) as [Hm1 [Hr1 _]]. split; [exact Hm1|eexists; exact Hr1].
+  intros [Hm [z Hr]] Hroom. destruct (step_sim m z o Hm Hr Hroom) as [Hm1 [Hr1 _]]. split; [exact Hm1|eexists; exact Hr1].
 Qed.
 
 Lemma find_app {A} (f : A -> bool) a b :
@@ -328,11 +320,10 @@ Proof.
       apply Forall_app in Hi. destruct Hi as [_ Hi]. rewrite Forall_forall in *. intros n Hn. apply Hi. apply in_map. exact Hn. }
     assert (HndN : NoDup (map nid (map hn (aarr s)))).
     { eapply Permutation_NoDup; [apply Permutation_map, Permutation_sym; exact Hp|exact Hndh]. }
-    pose proof (atrigger_spec (aclock s) (anext s) (S (length (aarr s))) (aarr s) (aoutside s) (arefer s) [] Hok Hout HndN) as Hs.
+    pose proof (atrigger_spec (aclock s) (S (length (aarr s))) (aarr s) (aoutside s) (arefer s) [] Hok Hout HndN) as Hs.
     cbn zeta in Hs. destruct Hs as [S1 [S2 [S3 [S4 S5]]]].
-    { rewrite Rn. eapply Permutation_Forall; [apply Permutation_sym; exact Hp|exact Hleh]. }
     { pose proof (filter_length_le' (is_due (aclock s)) (map hn (aarr s))) as Hl. rewrite map_length in Hl. lia. }
-    destruct (atrigger (S (length (aarr s))) (aclock s) (anext s) (aarr s) (aoutside s) (arefer s) []) as [[[arr1 out1] r1] o1].
+    destruct (atrigger (S (length (aarr s))) (aclock s) (aarr s) (aoutside s) (arefer s) []) as [[[arr1 out1] r1] o1].
     cbn [fst snd] in *.
     (* the abstract tick on h *)
     unfold htick. rewrite <- Rc, <- Rr.
@@ -353,14 +344,16 @@ Proof.
 Qed.
 
 Lemma arun_sim ops : forall s m,
-  good m -> arel s m ->
+  good m -> arel s m -> fits m ops ->
   arel (fst (arun s ops)) (fst (run m ops)) /\ Forall2 out_eqp (snd (arun s ops)) (snd (run m ops)).
 Proof.
-  induction ops as [|o ops IH]; intros s m Hg Hr; cbn [arun run].
+  induction ops as [|o ops IH]; intros s m Hg Hr Hf; cbn [arun run].
   - cbn. split; [exact Hr|constructor].
-  - destruct (astep_sim s m o Hg Hr) as [Hr1 Ho]. pose proof (good_step m o Hg) as Hg1.
+  - unfold fits in Hf. cbn [length] in Hf. assert (Hroom : snext m + 1 < 2 ^ 63) by lia.
+    destruct (astep_sim s m o Hg Hr) as [Hr1 Ho]. pose proof (good_step m o Hg Hroom) as Hg1.
+    pose proof (step_next_le m o (proj1 Hg) Hroom) as Hn.
     destruct (astep s o) as [s1 a]. destruct (step m o) as [m1 b]. cbn [fst snd] in *.
-    destruct (IH s1 m1 Hg1 Hr1) as [Hr2 Hos].
+    destruct (IH s1 m1 Hg1 Hr1) as [Hr2 Hos]; [unfold fits; lia|].
     destruct (arun s1 ops) as [s2 xs]. destruct (run m1 ops) as [m2 ys]. cbn [fst snd] in *.
     split; [exact Hr2|constructor; assumption].
 Qed.
@@ -378,21 +371,26 @@ Proof.
 Qed.
 
 (* every history: same answers as the abstract heap scheduler *)
+Lemma fits_init now ops : short ops -> fits (init_heap now) ops.
+Proof. unfold short, fits. cbn. lia. Qed.
+
 Theorem heap_array_refines ops now :
+  short ops ->
   Forall2 out_eqp (snd (arun (ainit now) ops)) (snd (run (init_heap now) ops)).
-Proof. apply arun_sim; [apply good_init_heap|apply arel_init]. Qed.
+Proof. intros Hs. apply arun_sim; [apply good_init_heap|apply arel_init|apply fits_init; exact Hs]. Qed.
 
 (* every history: the array is a heap under Less, node.index is the position of every node
    in the array and -1 for the nodes outside it, ids in the array are distinct *)
 Theorem heap_array_inv ops now :
+  short ops ->
   let s := fst (arun (ainit now) ops) in
   hp (aarr s) (length (aarr s)) /\ idx_ok (aarr s) /\
   Forall (fun x => hidx x = -1) (aoutside s) /\ NoDup (map (fun x => nid (hn x)) (aarr s)).
 Proof.
-  cbn zeta. destruct (arun_sim ops _ _ (good_init_heap now) (arel_init now)) as [[h [Ec [Hp [_ [_ [_ [_ [_ [[Hh Hi] Hout]]]]]]]]] _].
+  intros Hs. cbn zeta. destruct (arun_sim ops _ _ (good_init_heap now) (arel_init now) (fits_init now ops Hs)) as [[h [Ec [Hp [_ [_ [_ [_ [_ [[Hh Hi] Hout]]]]]]]]] _].
   split; [exact Hh|split; [exact Hi|split; [exact Hout|]]].
   assert (Hg : good (fst (run (init_heap now) ops))).
-  { destruct (run_refines ops _ _ (minv_init_heap now) (rel_init_heap now)) as [Hm [Hr _]]. split; [exact Hm|eexists; exact Hr]. }
+  { destruct (run_refines ops _ _ (minv_init_heap now) (rel_init_heap now) (fits_init now ops Hs)) as [Hm [Hr _]]. split; [exact Hm|eexists; exact Hr]. }
   destruct Hg as [Hm _]. pose proof (mi_ids _ Hm) as Hids. unfold all_ids in Hids. rewrite Ec in Hids. cbn [core_content] in Hids.
   apply nodup_app_elim in Hids. destruct Hids as [_ [Hnd _]].
   rewrite <- map_map. eapply Permutation_NoDup; [apply Permutation_map, Permutation_sym; exact Hp|exact Hnd].
@@ -406,10 +404,11 @@ Proof.
 Qed.
 
 Theorem heap_array_refines_spec ops now :
+  short ops ->
   Forall2 out_eq (snd (arun (ainit now) ops)) (snd (srun (sinit false now) ops)).
 Proof.
-  pose proof (heap_array_refines ops now) as H1.
-  destruct (run_refines ops _ _ (minv_init_heap now) (rel_init_heap now)) as [_ [_ H2]].
+  intros Hs. pose proof (heap_array_refines ops now Hs) as H1.
+  destruct (run_refines ops _ _ (minv_init_heap now) (rel_init_heap now) (fits_init now ops Hs)) as [_ [_ H2]].
   revert H2. generalize (snd (srun (sinit false now) ops)). induction H1 as [|a b l l' Hab H IH]; intros zs H2.
   - inversion H2. constructor.
   - inversion H2 as [|? c ? zs' Hbc Hr]; subst. constructor; [eapply out_eqp_eq; eassumption|apply IH; exact Hr].
